@@ -31,7 +31,7 @@ func (C04) Describe() sim.Description {
 	}
 }
 
-var c04Names = []string{"a", "ab", "b", "l", "m", "n"} //nolint:gochecknoglobals // name universe (with names that prefix each other).
+var c04Names = []string{"a", "ab", "b", "l", "m", "n", "dé"} //nolint:gochecknoglobals // name universe (with names that prefix each other).
 
 func (p C04) Run(c *sim.Ctx, t *sim.Tape) sim.RunResult {
 	w, err := newE1World(c, "memfs", 0o022)
